@@ -68,6 +68,19 @@ theorem C18_fLen_spec (a : AMgr) (hw : WF a.m.tbl) (hs : Nat) (s : Int)
       (∀ v, v ∈ l ↔ Reach a.m.tbl s.natAbs v) ∧ 1 ∈ l :=
   fLen_spec a hw hs s hh hm
 
+/-- `u.level` and `u.var` of a `Function` on a live handle: pure reads; `level` is the level of
+the node (`len(vars)` for the terminal); `var` is `None` for the terminal and otherwise
+`var_at_level(level)`, which under `VarsOK` (every level has a name; part of `OrderOK`) is the
+`t.nameOf n.lvl` in terms of which `C18_expand_spec` states the expansion by NAME -/
+theorem C18_fLevel_fVar_spec (a : AMgr) (hw : WF a.m.tbl) (hv : VarsOK a.m.tbl) (hs : Nat) (s : Int)
+    (hh : a.handles[hs]? = some s) (hm : a.m.tbl.Mem s) :
+    fLevel hs a = (.ok (a.m.tbl.levelOf s), a) ∧
+    (s.natAbs = 1 → fVar hs a = (.ok none, a)) ∧
+    (∀ n, s.natAbs ≠ 1 → a.m.tbl.succ[s.natAbs]? = some n →
+      fVar hs a = (.ok (some (a.m.tbl.nameOf n.lvl)), a) ∧
+      varAtLevel (n.lvl : Int) a.m = (.ok (a.m.tbl.nameOf n.lvl), a.m)) :=
+  fLevel_fVar_spec a hw hv hs s hh hm
+
 /-- evaluating a faithful export (`GraphOK`) from any exported node gives the denotation,
 whichever matching edge is followed -/
 theorem C18_graph_eval (t : Tbl) (hw : WF t) (g : Graph) (hg : GraphOK t g) (r : Int)
@@ -181,6 +194,10 @@ example := C18_fLen_spec { m := { tbl := exTbl }, handles := ({} : Std.TreeMap N
   exTbl_wfu.toWF 0 3 (by decide) exTbl_mem3
 example : (fLen 0 { m := { tbl := exTbl }, handles := ({} : Std.TreeMap Nat Int).insert 0 3 }).1.toOption
     = some 3 := by decide
+example := C18_fLevel_fVar_spec { m := { tbl := exTbl }, handles := ({} : Std.TreeMap Nat Int).insert 0 (-3) }
+  exTbl_wfu.toWF exTbl_varsOK 0 (-3) (by decide) exTbl_mem_neg3
+example : (fVar 0 { m := { tbl := exTbl }, handles := ({} : Std.TreeMap Nat Int).insert 0 (-3) }).1.toOption
+    = some (some "x") := by decide
 example := (C18_toDot_shape exTbl exTbl_wfu.toWF).1 [-3] (by simp) (by decide)
 /-- the DOT graph of `¬(x ∧ y)`: three vertices, the low edges of both nodes complemented -/
 example : toDot exTbl (some [-3]) = .ok ([(1, 2), (2, 1), (3, 0)],
